@@ -22,13 +22,14 @@ import dump_sites  # noqa: E402
 PID = "C16"
 GEN_GROUPS = ["SiteLim", "Sites"]
 TARGETS = ["coq/Props/C16.vo", "coq/Model/Sites.vo"]
-CASES = {"quick": 216, "thorough": 3600}
+CASES = {"quick": 228, "thorough": 3612}   # 36 configurations x 6 / 100 interleaved rounds
 SHARD = 18
 CORR_HEADER = ("From Coq Require Import String ZArith QArith List Bool.\n"
                "From ACN Require Import Base.Num Model.Feasible Gen.Sites Model.Sites.\nImport ListNotations.\n"
                "Open Scope Q_scope.\n")
 CHECK_FN = "check_c16"
-RULE = ("for each of the 18 dumped configurations (3 sites x basic/real EVSEs x 3 capacity settings): non-negative "
+RULE = ("all 36 dumped configurations (3 sites x basic/real EVSEs x 3 capacity settings at 208 V, plus voltage "
+        "arguments 200/120/240) are built first and then queried round-robin, instances of one site back to back: non-negative "
         "schedules within the EVSE limits (random, one phase group only, one transformer only, balanced), 1-2 periods, "
         "scaled so that the most loaded constraint sits at limit*(1+-k*1e-7), far inside or far outside; the real "
         "network's is_feasible (phase-aware and linear) and sum V*I per transformer are compared with the model on the "
@@ -45,22 +46,33 @@ _nets = {}
 
 
 def configs():
+    """(site, basic_evse, index into dump_sites.variants(site), kwargs) — the dumped configurations"""
     out = []
     for site in ("caltech", "jpl", "office001"):
-        for basic in (False, True):
-            for idx, kw in enumerate(dump_sites.CONFIGS[site]):
-                out.append((site, basic, idx, kw))
+        for idx, (basic, kw) in enumerate(dump_sites.variants(site)):
+            out.append((site, basic, idx, kw))
     return out
 
 
+def kw_of(site, idx):
+    return dump_sites.variants(site)[idx][1]
+
+
 def get_net(site, basic, idx):
-    key = (site, basic, idx)
+    key = (site, idx)
     if key not in _nets:
         import io
         import contextlib
         with contextlib.redirect_stdout(io.StringIO()):
-            _nets[key] = dump_sites.build(site, basic, dump_sites.CONFIGS[site][idx])
+            _nets[key] = dump_sites.build(site, basic, kw_of(site, idx))
     return _nets[key]
+
+
+def build_all():
+    """construct every site instance BEFORE any query, so that the queries that follow are interleaved
+    between live instances with no construction in between"""
+    for site, basic, idx, kw in configs():
+        get_net(site, basic, idx)
 
 
 def truth(site, ids, kw):
@@ -71,14 +83,22 @@ def truth(site, ids, kw):
 def run_impl(net, X, T):
     import numpy as np
     Xa = np.array(X, dtype=float).reshape(len(X), T)
-    return bool(net.is_feasible(Xa)), bool(net.is_feasible(Xa, linear=True))
+    raised = []
+    out = []
+    for lin in (False, True):
+        try:
+            out.append(bool(net.is_feasible(Xa, linear=lin)))
+        except Exception as e:  # noqa  -- recorded, reported by the monitor
+            out.append(False)
+            raised.append("is_feasible(linear=%s): %s: %s" % (lin, type(e).__name__, str(e)[:120]))
+    return out[0], out[1], raised
 
 
 def observe(site, basic, idx, X, T):
     net = get_net(site, basic, idx)
-    kw = dump_sites.CONFIGS[site][idx]
+    kw = kw_of(site, idx)
     ids = list(net.station_ids)
-    feas, feas_lin = run_impl(net, X, T)
+    feas, feas_lin, raised = run_impl(net, X, T)
     trs, pods, panels = truth(site, ids, kw)
     volts = [float(v) for v in net._voltages]
     power = [sum(volts[i] * X[i][0] for i in mem) for _, mem in trs]
@@ -86,13 +106,13 @@ def observe(site, basic, idx, X, T):
     A = net.constraint_matrix
     sec = [j for j, nm in enumerate(names) if "Secondary" in nm]
     uncovered = [ids[i] for i in range(len(ids)) if not any(A[j][i] != 0 for j in sec)]
-    return dict(feasible=feas, feasible_lin=feas_lin, power=power,
+    return dict(feasible=feas, feasible_lin=feas_lin, raised=raised, power=power,
                 phases=[float(p) for p in net._phase_angles], uncovered=uncovered, ids=ids,
                 max_rates=[float(x) for x in net.max_pilot_signals])
 
 
 def site_name(site, basic, idx):
-    return "site_%s_%s_%d" % (site, "basic" if basic else "real", idx)
+    return dump_sites.site_name(site, idx)
 
 
 def rand_schedule(rng, net, T, ids, site, kw):
@@ -134,44 +154,80 @@ def crash_case(site, basic, idx, e):
 
 
 def gen_cases(rng, n, tier):
+    """All instances are built first; then, round after round, every instance is queried once with a
+    schedule of the round's width, instances of one site back to back (in random order, so a smaller
+    transformer is queried right after a larger one and vice versa)."""
     cfgs = configs()
-    per = max(1, n // len(cfgs))
     cases = []
+    try:
+        build_all()
+    except Exception as e:  # noqa
+        return [crash_case("?", False, 0, e)]
+    ctx = {}
     for site, basic, idx, kw in cfgs:
-        try:
-            cases.extend(gen_config_cases(rng, per, site, basic, idx, kw))
-        except Exception as e:  # noqa
-            cases.append(crash_case(site, basic, idx, e))
-    return cases
-
-
-def gen_config_cases(rng, per, site, basic, idx, kw):
-    cases = []
-    if True:
         net = get_net(site, basic, idx)
-        ids = list(net.station_ids)
         A, L, ph = c06.read_back(net)
-        cis = c06.cis_of(ph)
-        vt, rt = net.violation_tolerance, net.relative_tolerance
-        for _ in range(per):
-            T = rng.choice([1, 1, 1, 2])
-            X, kind = rand_schedule(rng, net, T, ids, site, kw)
-            X, colkinds = c06.place(rng, A, L, cis, vt, rt, X, T, rng.random() < 0.2)
-            # keep the schedule on a 2^-30 grid (small rationals for the model run)
-            X = [[round(v * 2 ** 30) / 2 ** 30 for v in r] for r in X]
-            impl = observe(site, basic, idx, X, T)
-            cur = c06.currents_exact(A, cis, X, T, False)
-            curl = c06.currents_exact(A, cis, X, T, True)
-            amb = c06.robust(cur, L, vt, rt) is None or c06.robust(curl, L, vt, rt) is None
-            coq = ("{| k_site := %s; k_T := %d%%nat; k_X := %s; j_feasible := %s; j_feasible_lin := %s; j_power := %s |}" % (
-                site_name(site, basic, idx), T, coq_list([coq_list([q(v) for v in r]) for r in X]),
-                coq_bool(impl["feasible"]), coq_bool(impl["feasible_lin"]), coq_list([q(p) for p in impl["power"]])))
-            inp = dict(site=site, basic=basic, idx=idx, X=X, T=T)
-            cases.append(dict(input=inp, impl=impl, coq=coq, ambiguous=amb, nontrivial=True,
-                              kind="%s/%s/%s/%s" % (site, kind, "+".join(sorted(set(colkinds))),
-                                                    "feasible" if impl["feasible"] else "infeasible"),
-                              sig=[site, basic, idx, X]))
+        ctx[(site, idx)] = dict(net=net, ids=list(net.station_ids), A=A, L=L, ph=ph, cis=c06.cis_of(ph),
+                                vt=net.violation_tolerance, rt=net.relative_tolerance)
+    # prelude: per site, a larger and a smaller transformer queried back to back (both orders) with a
+    # balanced schedule just inside the larger one's limits
+    for site in ("caltech", "jpl", "office001"):
+        try:
+            cs = [c for c in cfgs if c[0] == site]
+            big, small = cs[0], cs[1]
+            nb = ctx[(site, big[2])]["net"]
+            phases = ctx[(site, big[2])]["ph"]
+            cnt = {g: sum(1 for p in phases if p == g) for g in PHASES}
+            w = [1.0 / cnt[p] if cnt.get(p) else 0.0 for p in phases]
+            mx = [min(float(m), 80.0) for m in nb.max_pilot_signals]
+            x = feasible_max(nb, w, mx) * 0.97
+            X = [[float(v)] for v in x]
+            prev = None
+            for c in (big, small, big, small):
+                cases.append(one_case(rng, ctx[(site, c[2])], c[0], c[1], c[2], c[3], 1, prev, X=X))
+                prev = [c[0], c[1], c[2]]
+        except Exception as e:  # noqa
+            cases.append(crash_case(site, False, 0, e))
+    rounds = max(1, (n - len(cases)) // len(cfgs))
+    for r in range(rounds):
+        T = rng.choice([1, 1, 1, 2])
+        groups = {}
+        for c in cfgs:
+            groups.setdefault(c[0], []).append(c)
+        order = []
+        for site in rng.sample(sorted(groups), len(groups)):
+            order.extend(rng.sample(groups[site], len(groups[site])))
+        prev = None
+        for site, basic, idx, kw in order:
+            try:
+                cases.append(one_case(rng, ctx[(site, idx)], site, basic, idx, kw, T, prev))
+            except Exception as e:  # noqa
+                cases.append(crash_case(site, basic, idx, e))
+            prev = [site, basic, idx]
     return cases
+
+
+def one_case(rng, cx, site, basic, idx, kw, T, prev, X=None):
+    net, ids, A, L, cis, vt, rt = cx["net"], cx["ids"], cx["A"], cx["L"], cx["cis"], cx["vt"], cx["rt"]
+    if X is None:
+        X, kind = rand_schedule(rng, net, T, ids, site, kw)
+        X, colkinds = c06.place(rng, A, L, cis, vt, rt, X, T, rng.random() < 0.2)
+    else:
+        kind, colkinds = "pair-prelude", ["near-max-of-other"]
+    # keep the schedule on a 2^-30 grid (small rationals for the model run)
+    X = [[round(v * 2 ** 30) / 2 ** 30 for v in r] for r in X]
+    impl = observe(site, basic, idx, X, T)
+    cur = c06.currents_exact(A, cis, X, T, False)
+    curl = c06.currents_exact(A, cis, X, T, True)
+    amb = c06.robust(cur, L, vt, rt) is None or c06.robust(curl, L, vt, rt) is None
+    coq = ("{| k_site := %s; k_T := %d%%nat; k_X := %s; j_feasible := %s; j_feasible_lin := %s; j_power := %s |}" % (
+        site_name(site, basic, idx), T, coq_list([coq_list([q(v) for v in r]) for r in X]),
+        coq_bool(impl["feasible"]), coq_bool(impl["feasible_lin"]), coq_list([q(p) for p in impl["power"]])))
+    inp = dict(site=site, basic=basic, idx=idx, X=X, T=T, before=prev)
+    return dict(input=inp, impl=impl, coq=coq, ambiguous=amb, nontrivial=True,
+                kind="%s/%s/%s/%s/%s" % (site, "v%g" % kw.get("voltage", 208), kind, "+".join(sorted(set(colkinds))),
+                                         "feasible" if impl["feasible"] else "infeasible"),
+                sig=[site, idx, X])
 
 
 # ------------------------------------------------------------------------------------------
@@ -190,7 +246,10 @@ def monitor(case):
     if inp.get("crash"):
         return "site factory / network raised %s" % impl["crash"]
     site, idx, X, T = inp["site"], inp["idx"], inp["X"], inp["T"]
-    kw = dump_sites.CONFIGS[site][idx]
+    if impl.get("raised"):
+        return "%s%s" % ("; ".join(impl["raised"]),
+                         " (queried right after instance %s)" % (inp["before"],) if inp.get("before") else "")
+    kw = kw_of(site, idx)
     ids, phases = impl["ids"], impl["phases"]
     bad = [ids[i] for i, p in enumerate(phases) if p not in PHASES]
     if bad:
@@ -226,7 +285,7 @@ def ascent(rng, site, basic, idx, budget_s):
     net = get_net(site, basic, idx)
     ids = list(net.station_ids)
     n = len(ids)
-    kw = dump_sites.CONFIGS[site][idx]
+    kw = kw_of(site, idx)
     mx = [min(float(m), 80.0) for m in net.max_pilot_signals]
     phases = [float(p) for p in net._phase_angles]
     trs, pods, panels = truth(site, ids, kw)
@@ -279,10 +338,66 @@ def ascent(rng, site, basic, idx, budget_s):
     return None
 
 
+def feasible_max(net, w, mx):
+    """largest multiple of the ray w (clipped to the EVSE limits) that the network accepts"""
+    import numpy as np
+    n = len(w)
+    wa, mxa = np.array(w), np.array(mx)
+    lo, hi = 0.0, 4000.0
+    for _ in range(40):
+        mid = (lo + hi) / 2
+        if net.is_feasible(np.minimum(mid * wa, mxa).reshape(n, 1)):
+            lo = mid
+        else:
+            hi = mid
+    return np.minimum(lo * wa, mxa)
+
+
+def interleave_probe(rng):
+    """two live instances of one site with different capacities, queried alternately with schedules of
+    the same width and no construction in between: each must be judged against its OWN limits"""
+    build_all()
+    by_site = {}
+    for c in configs():
+        by_site.setdefault(c[0], []).append(c)
+    for site, cs in by_site.items():
+        for _ in range(6):
+            big, small = rng.sample(cs, 2)
+            nb, ns = get_net(*big[:3]), get_net(*small[:3])
+            n = len(nb.station_ids)
+            phases = [float(p) for p in nb._phase_angles]
+            cnt = {g: sum(1 for p in phases if p == g) for g in PHASES}
+            w = [1.0 / cnt[p] if cnt.get(p) else 0.0 for p in phases]
+            mx = [min(float(m), 80.0) for m in nb.max_pilot_signals]
+            x = feasible_max(nb, w, mx) * rng.choice([0.99, 0.9, 0.7])
+            X = [[float(v)] for v in x]
+            for first, second in ((big, small), (small, big)):
+                observe(first[0], first[1], first[2], X, 1)
+                impl = observe(second[0], second[1], second[2], X, 1)
+                c = dict(input=dict(site=second[0], basic=second[1], idx=second[2], X=X, T=1, before=list(first[:3])),
+                         impl=impl)
+                r = monitor(c)
+                if r:
+                    return dict(case=c["input"], impl=impl, why=r)
+    return None
+
+
 def search(rng, budget_s, broken):
+    try:
+        return search_(rng, budget_s, broken)
+    except Exception as e:  # noqa  -- the implementation raised on an input the harness considers valid
+        c = crash_case("?", False, 0, e)
+        return dict(case=c["input"], impl=c["impl"], why=monitor(c))
+
+
+def search_(rng, budget_s, broken):
     cfgs = configs()
     t0 = time.time()
-    # structural parts of the property first (phase angles, coverage)
+    w = interleave_probe(rng)
+    if w:
+        return w
+    # structural parts of the property (phase angles, coverage)
+    prev = None
     for site, basic, idx, kw in cfgs:
         try:
             n = len(get_net(site, basic, idx).station_ids)
@@ -291,7 +406,8 @@ def search(rng, budget_s, broken):
             return dict(case=c["input"], impl=c["impl"], why=monitor(c))
         X = [[0.0]] * n
         impl = observe(site, basic, idx, X, 1)
-        c = dict(input=dict(site=site, basic=basic, idx=idx, X=X, T=1), impl=impl)
+        c = dict(input=dict(site=site, basic=basic, idx=idx, X=X, T=1, before=prev), impl=impl)
+        prev = [site, basic, idx]
         r = monitor(c)
         if r:
             return dict(case=c["input"], impl=impl, why=r)
@@ -314,10 +430,18 @@ def replay(w):
     inp = w["case"]
     if inp.get("crash"):
         try:
-            _nets.pop((inp["site"], inp["basic"], inp["idx"]), None)
-            get_net(inp["site"], inp["basic"], inp["idx"])
+            _nets.clear()
+            build_all()
         except Exception as e:  # noqa
             return "site factory raised %s" % type(e).__name__
         return None
+    _nets.clear()
+    if inp.get("before"):
+        # re-create the interleaving: both instances alive, the other one queried first with a schedule
+        # of the same width, nothing constructed in between
+        b = inp["before"]
+        nb = get_net(b[0], b[1], b[2])
+        get_net(inp["site"], inp["basic"], inp["idx"])
+        run_impl(nb, [[0.0] * inp["T"]] * len(nb.station_ids), inp["T"])
     impl = observe(inp["site"], inp["basic"], inp["idx"], inp["X"], inp["T"])
     return monitor(dict(input=inp, impl=impl))
